@@ -83,6 +83,7 @@ func (x *Exec) evalBuiltin(call *ast.CallExpr, fun ast.Expr, st *St, fr *Frame, 
 			k(st, x.newMap(st, ty))
 		case *types.Chan:
 			r := x.allocRef(st, ty, "chan")
+			x.assume(st, Not(Select(st.field(chanClosedField), r)))
 			k(st, &Val{T: r, Ty: ty})
 		case *types.Slice:
 			// make([]T, n): n zero values
@@ -117,6 +118,12 @@ func (x *Exec) evalBuiltin(call *ast.CallExpr, fun ast.Expr, st *St, fr *Frame, 
 		x.eval(call.Args[0], st, fr, func(st *St, v *Val) {
 			if !owned {
 				x.safety(st, fr, False, "close-of-a-channel-not-made-here", call.Lparen)
+			}
+			if v.T != nil && v.T.Sort == SRef {
+				old := st.field(chanClosedField)
+				nw := x.fresh(chanClosedField.Key, old.Sort)
+				x.assume(st, Eq(nw, Store(old, v.T, True)))
+				st.heap[chanClosedField.Key] = nw
 			}
 			k(st, &Val{})
 		})
